@@ -1,4 +1,5 @@
 import QP.Base
+import QP.Props.C08
 import QP.Props.C13
 import QP.Props.C14
 import QP.Props.C19
